@@ -231,8 +231,9 @@ Definition get_fake (tbl : list (string * prov)) (ni : list string) (q : string)
 Section Consistency.
   Context {V : Type} (veqb : V -> V -> bool) (val : prov -> V).
   Definition consistentb (s : src) (attrs : list string) : bool :=
-    forallb (fun n1 => forallb (fun n2 =>
-      negb (String.eqb (canon n1) (canon n2)) || veqb (val (s, n1)) (val (s, n2))) attrs) attrs.
+    let l := map (fun n => (canon n, val (s, n))) attrs in
+    forallb (fun p1 => forallb (fun p2 =>
+      negb (String.eqb (fst p1) (fst p2)) || veqb (snd p1) (snd p2)) l) l.
 End Consistency.
 Definition sf_keys (sa : list string) : list string := map lower sa ++ map canon sa.
 (* a Faker name with the canonical form of a Snowfakery name is shadowed in both spellings *)
@@ -338,11 +339,13 @@ Definition check_row (tbl : list (string * prov)) (ni : list string) (this_year 
   end.
 
 (* signature of a provider as the harness observes it (Faker stubbed: attribute n returns
-   the text "F:n"); [sigs] gives the observed behaviour of each FakeNames attribute *)
+   the text "F:n"); [sigs] gives the observed behaviour of each FakeNames attribute, and under
+   the key "F:n" that of Faker attributes that are not callable *)
 Definition sig_of (sigs : list (string * string)) (p : option prov) : string :=
   match p with
   | None => "!AttributeError"
-  | Some (Fk, n) => String "F" (String ":" n)
+  | Some (Fk, n) => let d := String "F" (String ":" n) in
+                    match assoc d sigs with Some s => s | None => d end   (* non-callable attribute *)
   | Some (Sf, n) => match assoc n sigs with Some s => s | None => "?" end
   end.
 
@@ -357,7 +360,7 @@ Definition hyps_hold (fa sa : list string) (sigs : list (string * string)) : boo
 
 Inductive case :=
 | CLocale (fk_dir ignore sf_dir ni : list string) (sigs : list (string * string))
-          (hyp_ok : bool)                          (* the harness' own evaluation of hyps_hold *)
+          (hyp_ok : option bool)                   (* the harness' own evaluation of hyps_hold (table cases) *)
           (queries : list (string * string))       (* spelling, observed signature *)
           (doms : list lit)                        (* the provider's safe_domain_names *)
           (doms_ok : bool)
@@ -384,7 +387,7 @@ Definition check_case (c : case) : bool :=
     let sa := attrs_of sf_dir [] in
     let tbl := build fa sa in
     forallb (check_query tbl ni sigs) queries
-    && Bool.eqb (hyps_hold fa sa sigs) hyp_ok
+    && match hyp_ok with Some b => Bool.eqb (hyps_hold fa sa sigs) b | None => true end
     && Bool.eqb (forallb (fun d => reserved (cp d)) doms) doms_ok
     && forallb (check_row tbl ni this_year) rows
   | CClean items => forallb (fun p => opt_str_eqb (clean_str (cp (fst p))) (snd p)) items
